@@ -134,6 +134,10 @@ void CONmtReset(CO_NMT *nmt, CO_NMT_RESET type)
         /* a stored bit rate gets active with the reset */
         COIfCanEnable(&nmt->Node->If, nmt->Node->Baudrate);
         COEmcyReset(&nmt->Node->Emcy, 1);
+        if (nmt->Node->Emcy.Hist.Max > 0) {
+            /* the error history restarts empty like the errors it lists */
+            COEmcyHistReset(&nmt->Node->Emcy);
+        }
         COSyncInit(&nmt->Node->Sync, nmt->Node);
 
         /* restart heartbeat consumers, heartbeat producer and SYNC
